@@ -40,6 +40,7 @@ type Case struct {
 	Poll          bool    `json:"poll,omitempty"` // ... against a poll-mode server
 	Servers       int     `json:"servers,omitempty"`
 	Rounds        []Round `json:"rounds,omitempty"` // churn mode: one short-lived connection per round
+	Hold          int     `json:"hold,omitempty"`   // churn mode: connections opened on every server at its start and kept open
 }
 
 // Round is one short-lived connection of a churn case: it connects (optionally after a silent
@@ -61,6 +62,11 @@ func genChurn(t *rapid.T, c *Case) {
 	c.Unix = true
 	c.Poll = rapid.IntRange(0, 3).Draw(t, "poll") > 0
 	c.Servers = rapid.IntRange(1, 6).Draw(t, "servers")
+	if rapid.IntRange(0, 3).Draw(t, "hold") == 0 {
+		// more connections than a poll-mode server has dedicated workers: the rest share workers
+		c.Hold = rapid.IntRange(17, 24).Draw(t, "held")
+		c.Servers = rapid.IntRange(1, 2).Draw(t, "servers2")
+	}
 	n := rapid.IntRange(3, 30).Draw(t, "rounds")
 	for i := 0; i < n; i++ {
 		c.Rounds = append(c.Rounds, Round{
@@ -661,7 +667,7 @@ func runChurn(c Case) kit.Outcome {
 			return kit.Outcome{Invalid: true}
 		}
 	}
-	if c.Servers < 1 || c.Servers > 8 {
+	if c.Servers < 1 || c.Servers > 8 || c.Hold < 0 || c.Hold > 64 {
 		return kit.Outcome{Invalid: true}
 	}
 	for _, r := range c.Rounds {
@@ -672,7 +678,11 @@ func runChurn(c Case) kit.Outcome {
 	m := kit.Modes{Enc: c.Enc, SrvPipelining: c.SrvPipelining, SrvDirect: c.SrvDirect, Link: "unix", Poll: c.Poll}
 	sessions := make([]*kit.Session, c.Servers)
 	prevs := make([][]*kit.ScriptClient, c.Servers)
+	var held []*kit.ScriptClient
 	defer func() {
+		for _, h := range held {
+			h.Close()
+		}
 		var wg sync.WaitGroup
 		for i, sess := range sessions {
 			for _, p := range prevs[i] {
@@ -698,6 +708,17 @@ func runChurn(c Case) kit.Outcome {
 			}
 			sessions[r.Srv] = sess
 			visitors++
+			for h := 0; h < c.Hold; h++ {
+				rc, err := kit.DialRaw("unix", sess.Addr)
+				if err != nil {
+					return kit.Undecided("dial: %v", err)
+				}
+				hc := kit.NewScriptClientOn(rc, c.Enc, sess.Env.Tick)
+				held = append(held, hc)
+				if err := hc.Send(kit.ReqHeader{Seq: 0, Upgrade: []byte{kit.RefUpgrade(true, true, true, 0)}}); err != nil {
+					return kit.Undecided("send: %v", err)
+				}
+			}
 		}
 		sess, env := sessions[r.Srv], sessions[r.Srv].Env
 		prev := prevs[r.Srv]
@@ -821,6 +842,13 @@ func runChurn(c Case) kit.Outcome {
 		}
 		prevs[r.Srv] = clis
 	}
+	for i, h := range held {
+		if !h.WaitResponses(1, churnBound) {
+			o := kit.Fail("unanswered-after-churn", "held connection %d of %d got no answer to its ping within %v [poll=%v]", i, len(held), churnBound, c.Poll)
+			o.Timing = true
+			return o
+		}
+	}
 	execs := map[uint64]int{}
 	for _, sess := range sessions {
 		if sess == nil {
@@ -853,6 +881,9 @@ func runChurn(c Case) kit.Outcome {
 	out := kit.Outcome{Counters: map[string]int{"frames": len(sentArgs), "executions": len(execs), "churn_rounds": len(c.Rounds)}, Classes: []string{"churn", "enc=" + c.Enc, "unix-sockets"}}
 	if c.Poll {
 		out.Classes = append(out.Classes, "poll")
+	}
+	if c.Hold > 16 {
+		out.Classes = append(out.Classes, "churn-with-more-than-16-open-connections")
 	}
 	if len(c.Rounds) >= 3 && (visitors > 0 || overlaps > 0) {
 		out.Nontrivial = true
